@@ -203,6 +203,9 @@ def run(tier):
     # every /regex/[i] lexeme over the alphabet of spec/RegexLex.tla after EXPRESSION and FILTER, both output quotes
     from .. import regexlex
     regexlex.run(ck, "C01", tier, loads, impl.dumper)
+    # every [name] attribute binding over the pieces of spec/BindLex.tla (characters and whole keywords) in five kinds of slot
+    from .. import bindlex
+    bindlex.run(ck, "C01", tier, loads, impl.dumper)
     verdicts = tracecheck.validate("TraceRoundTrip", records, "c01", ck=ck, chunk=800, canary=canary)
     skipped = 0
     for tid, v in verdicts.items():
